@@ -7,8 +7,9 @@
 (*    REPRESENTATION per array argument: element type incl. float32 / integers /   *)
 (*    unsigned, non-native byte order, python list, strided / reversed / read-only *)
 (*    view) and `lat` (the LATTICE value = (x + OFF) * unit the abstract integers  *)
-(*    are mapped to: six small ones and five with |OFF| from 10^8 to 2^40, i.e.    *)
-(*    data whose offset is huge relative to their scatter).  The (rep, lat) tuple  *)
+(*    are mapped to: six small ones, five with |OFF| from 10^8 to 2^40, i.e. data  *)
+(*    whose offset is huge relative to their scatter, and six placements of the   *)
+(*    values across the whole range of an 8/16/32-bit integer type).  The (rep, lat) tuple  *)
 (*    of a case is a row of a strength-2 orthogonal array (DesignCovers) picked by *)
 (*    a hash of the case, so that the design is spread over every data structure;  *)
 (*    the family "rp" runs a few data sets under EVERY row (or, RepFull, the full  *)
@@ -55,34 +56,136 @@ Init == phase = "start" /\ c = NoCase /\ st = NoSt
 \* ---- representations and lattices --------------------------------------------------------
 \* (names are mapped to numpy / python objects and to numbers by the adapter, which verifies the attributes
 \* declared here against its numbers; "be" = non-native byte order)
-RepSeq  == <<"f8", "f8be", "f4", "i8", "i4be", "u2", "u8", "list", "strided", "reversed", "readonly">>
-NRep    == Len(RepSeq)                 \* 11: prime (the design below needs that)
-IntReps == {"i8", "i4be", "u2", "u8"}
-UnsReps == {"u2", "u8"}
-\* int : every datum (x + OFF) * unit is an integer     half : so is every half-lattice query point
-\* nn  : no datum is negative                           qnn  : no query point is negative
-\* big : |OFF| >= 10^8 lattice units                    i4   : data fit 32-bit integers
-\* wint: every weight w * wunit is an integer
+RepSeq  == <<"f8", "f8be", "f4", "i8", "i4be", "u2", "u8", "list", "strided", "reversed", "readonly",
+             "i1", "i2", "i2be", "i4", "u1", "u4be">>
+NRep    == Len(RepSeq)                 \* 17: prime (the design below needs that)
+IntReps == {"i8", "i4be", "u2", "u8", "i1", "i2", "i2be", "i4", "u1", "u4be"}
+UnsReps == {"u2", "u8", "u1", "u4be"}
+\* A lattice says where the abstract integers k sit: data / table values at (k + OFF) * unit, table nodes and query
+\* points at (k + XOFF) * xunit, matrix entries at m * cunit, weights at w * wunit (numbers: adapter).  Declared here:
+\*   big : |OFF| >= 10^8 lattice units (offset huge relative to the scatter)
+\*   kmax, ckmax : the largest datum / matrix entry the lattice admits (a case with larger ones runs on "unit")
+\*   fit, xfit, qfit, wfit, cfit : the integer representations that hold every datum 0..kmax / node 0..kmax / half-
+\*        lattice query point -2..kmax+2 / weight 0..32 / matrix entry -4..ckmax (unsigned: 0..ckmax) exactly.
+\* The six "span" lattices are PLACEMENTS of the values across (nearly) the whole range of an integer type (signed:
+\* centred, about -max..max; unsigned: near 0 .. near the maximum): sums, differences, products and squares of the
+\* elements exceed the element type - the results must not (Stats.tla computes on the small integers k).
 LatSeq == <<
-  [name |-> "unit",      int |-> TRUE,  half |-> FALSE, nn |-> TRUE,  qnn |-> FALSE, big |-> FALSE, i4 |-> TRUE,  wint |-> TRUE],
-  [name |-> "half-3",    int |-> FALSE, half |-> FALSE, nn |-> FALSE, qnn |-> FALSE, big |-> FALSE, i4 |-> FALSE, wint |-> FALSE],
-  [name |-> "x4+2",      int |-> TRUE,  half |-> TRUE,  nn |-> TRUE,  qnn |-> TRUE,  big |-> FALSE, i4 |-> TRUE,  wint |-> TRUE],
-  [name |-> "fine",      int |-> FALSE, half |-> FALSE, nn |-> TRUE,  qnn |-> FALSE, big |-> FALSE, i4 |-> FALSE, wint |-> FALSE],
-  [name |-> "x8-6",      int |-> TRUE,  half |-> TRUE,  nn |-> FALSE, qnn |-> FALSE, big |-> FALSE, i4 |-> TRUE,  wint |-> TRUE],
-  [name |-> "w1024",     int |-> TRUE,  half |-> FALSE, nn |-> TRUE,  qnn |-> TRUE,  big |-> FALSE, i4 |-> TRUE,  wint |-> TRUE],
-  [name |-> "big40",     int |-> TRUE,  half |-> FALSE, nn |-> TRUE,  qnn |-> TRUE,  big |-> TRUE,  i4 |-> FALSE, wint |-> TRUE],
-  [name |-> "stamp1e9",  int |-> TRUE,  half |-> FALSE, nn |-> TRUE,  qnn |-> TRUE,  big |-> TRUE,  i4 |-> TRUE,  wint |-> FALSE],
-  [name |-> "bigfrac33", int |-> FALSE, half |-> FALSE, nn |-> TRUE,  qnn |-> TRUE,  big |-> TRUE,  i4 |-> FALSE, wint |-> TRUE],
-  [name |-> "bigneg37",  int |-> TRUE,  half |-> TRUE,  nn |-> FALSE, qnn |-> FALSE, big |-> TRUE,  i4 |-> FALSE, wint |-> TRUE],
-  [name |-> "big1e8",    int |-> TRUE,  half |-> FALSE, nn |-> TRUE,  qnn |-> TRUE,  big |-> TRUE,  i4 |-> TRUE,  wint |-> TRUE] >>
+  [name |-> "unit", big |-> FALSE, kmax |-> 60, ckmax |-> 25,
+   fit |-> {"i1", "i2", "i2be", "i4", "i4be", "i8", "u1", "u2", "u4be", "u8"},
+   xfit |-> {"i1", "i2", "i2be", "i4", "i4be", "i8", "u1", "u2", "u4be", "u8"},
+   qfit |-> {},
+   wfit |-> {"i1", "i2", "i2be", "i4", "i4be", "i8", "u1", "u2", "u4be", "u8"},
+   cfit |-> {"i1", "i2", "i2be", "i4", "i4be", "i8", "u1", "u2", "u4be", "u8"}],
+  [name |-> "half-3", big |-> FALSE, kmax |-> 60, ckmax |-> 25,
+   fit |-> {},
+   xfit |-> {},
+   qfit |-> {},
+   wfit |-> {},
+   cfit |-> {}],
+  [name |-> "x4+2", big |-> FALSE, kmax |-> 60, ckmax |-> 25,
+   fit |-> {"i2", "i2be", "i4", "i4be", "i8", "u1", "u2", "u4be", "u8"},
+   xfit |-> {"i2", "i2be", "i4", "i4be", "i8", "u1", "u2", "u4be", "u8"},
+   qfit |-> {"i2", "i2be", "i4", "i4be", "i8", "u2", "u4be", "u8"},
+   wfit |-> {"i2", "i2be", "i4", "i4be", "i8", "u2", "u4be", "u8"},
+   cfit |-> {"i2", "i2be", "i4", "i4be", "i8", "u2", "u4be", "u8"}],
+  [name |-> "fine", big |-> FALSE, kmax |-> 60, ckmax |-> 25,
+   fit |-> {},
+   xfit |-> {},
+   qfit |-> {},
+   wfit |-> {},
+   cfit |-> {}],
+  [name |-> "x8-6", big |-> FALSE, kmax |-> 60, ckmax |-> 25,
+   fit |-> {"i2", "i2be", "i4", "i4be", "i8"},
+   xfit |-> {"i2", "i2be", "i4", "i4be", "i8"},
+   qfit |-> {"i2", "i2be", "i4", "i4be", "i8"},
+   wfit |-> {"i1", "i2", "i2be", "i4", "i4be", "i8", "u1", "u2", "u4be", "u8"},
+   cfit |-> {"i2", "i2be", "i4", "i4be", "i8", "u2", "u4be", "u8"}],
+  [name |-> "w1024", big |-> FALSE, kmax |-> 60, ckmax |-> 25,
+   fit |-> {"i1", "i2", "i2be", "i4", "i4be", "i8", "u1", "u2", "u4be", "u8"},
+   xfit |-> {"i1", "i2", "i2be", "i4", "i4be", "i8", "u1", "u2", "u4be", "u8"},
+   qfit |-> {},
+   wfit |-> {"i4", "i4be", "i8", "u2", "u4be", "u8"},
+   cfit |-> {"i1", "i2", "i2be", "i4", "i4be", "i8", "u1", "u2", "u4be", "u8"}],
+  [name |-> "big40", big |-> TRUE, kmax |-> 60, ckmax |-> 25,
+   fit |-> {"i8", "u8"},
+   xfit |-> {"i8", "u8"},
+   qfit |-> {},
+   wfit |-> {"i1", "i2", "i2be", "i4", "i4be", "i8", "u1", "u2", "u4be", "u8"},
+   cfit |-> {"i1", "i2", "i2be", "i4", "i4be", "i8", "u1", "u2", "u4be", "u8"}],
+  [name |-> "stamp1e9", big |-> TRUE, kmax |-> 60, ckmax |-> 25,
+   fit |-> {"i4", "i4be", "i8", "u4be", "u8"},
+   xfit |-> {"i4", "i4be", "i8", "u4be", "u8"},
+   qfit |-> {},
+   wfit |-> {},
+   cfit |-> {"i1", "i2", "i2be", "i4", "i4be", "i8", "u1", "u2", "u4be", "u8"}],
+  [name |-> "bigfrac33", big |-> TRUE, kmax |-> 60, ckmax |-> 25,
+   fit |-> {},
+   xfit |-> {},
+   qfit |-> {},
+   wfit |-> {"i1", "i2", "i2be", "i4", "i4be", "i8", "u1", "u2", "u4be", "u8"},
+   cfit |-> {}],
+  [name |-> "bigneg37", big |-> TRUE, kmax |-> 60, ckmax |-> 25,
+   fit |-> {"i8"},
+   xfit |-> {"i8"},
+   qfit |-> {"i8"},
+   wfit |-> {"i2", "i2be", "i4", "i4be", "i8", "u2", "u4be", "u8"},
+   cfit |-> {"i2", "i2be", "i4", "i4be", "i8", "u2", "u4be", "u8"}],
+  [name |-> "big1e8", big |-> TRUE, kmax |-> 60, ckmax |-> 25,
+   fit |-> {"i4", "i4be", "i8", "u4be", "u8"},
+   xfit |-> {"i4", "i4be", "i8", "u4be", "u8"},
+   qfit |-> {},
+   wfit |-> {"i1", "i2", "i2be", "i4", "i4be", "i8", "u1", "u2", "u4be", "u8"},
+   cfit |-> {"i1", "i2", "i2be", "i4", "i4be", "i8", "u1", "u2", "u4be", "u8"}],
+  [name |-> "span-s8", big |-> FALSE, kmax |-> 6, ckmax |-> 9,
+   fit |-> {"i1", "i2", "i2be", "i4", "i4be", "i8"},
+   xfit |-> {"i1", "i2", "i2be", "i4", "i4be", "i8"},
+   qfit |-> {"i1", "i2", "i2be", "i4", "i4be", "i8"},
+   wfit |-> {"i1", "i2", "i2be", "i4", "i4be", "i8", "u1", "u2", "u4be", "u8"},
+   cfit |-> {"i1", "i2", "i2be", "i4", "i4be", "i8", "u1", "u2", "u4be", "u8"}],
+  [name |-> "span-u8", big |-> FALSE, kmax |-> 6, ckmax |-> 9,
+   fit |-> {"i2", "i2be", "i4", "i4be", "i8", "u1", "u2", "u4be", "u8"},
+   xfit |-> {"i2", "i2be", "i4", "i4be", "i8", "u1", "u2", "u4be", "u8"},
+   qfit |-> {"i2", "i2be", "i4", "i4be", "i8", "u1", "u2", "u4be", "u8"},
+   wfit |-> {"i1", "i2", "i2be", "i4", "i4be", "i8", "u1", "u2", "u4be", "u8"},
+   cfit |-> {"i2", "i2be", "i4", "i4be", "i8", "u1", "u2", "u4be", "u8"}],
+  [name |-> "span-s16", big |-> FALSE, kmax |-> 6, ckmax |-> 9,
+   fit |-> {"i2", "i2be", "i4", "i4be", "i8"},
+   xfit |-> {"i2", "i2be", "i4", "i4be", "i8"},
+   qfit |-> {"i2", "i2be", "i4", "i4be", "i8"},
+   wfit |-> {"i1", "i2", "i2be", "i4", "i4be", "i8", "u1", "u2", "u4be", "u8"},
+   cfit |-> {"i2", "i2be", "i4", "i4be", "i8", "u2", "u4be", "u8"}],
+  [name |-> "span-u16", big |-> FALSE, kmax |-> 6, ckmax |-> 9,
+   fit |-> {"i4", "i4be", "i8", "u2", "u4be", "u8"},
+   xfit |-> {"i4", "i4be", "i8", "u2", "u4be", "u8"},
+   qfit |-> {"i4", "i4be", "i8", "u2", "u4be", "u8"},
+   wfit |-> {"i1", "i2", "i2be", "i4", "i4be", "i8", "u1", "u2", "u4be", "u8"},
+   cfit |-> {"i4", "i4be", "i8", "u2", "u4be", "u8"}],
+  [name |-> "span-s32", big |-> FALSE, kmax |-> 6, ckmax |-> 9,
+   fit |-> {"i4", "i4be", "i8"},
+   xfit |-> {"i4", "i4be", "i8"},
+   qfit |-> {"i4", "i4be", "i8"},
+   wfit |-> {"i1", "i2", "i2be", "i4", "i4be", "i8", "u1", "u2", "u4be", "u8"},
+   cfit |-> {"i4", "i4be", "i8", "u4be", "u8"}],
+  [name |-> "span-u32", big |-> FALSE, kmax |-> 6, ckmax |-> 9,
+   fit |-> {"i8", "u4be", "u8"},
+   xfit |-> {"i8", "u4be", "u8"},
+   qfit |-> {"i8", "u4be", "u8"},
+   wfit |-> {"i1", "i2", "i2be", "i4", "i4be", "i8", "u1", "u2", "u4be", "u8"},
+   cfit |-> {"i8", "u4be", "u8"}] >>
 NLat == Len(LatSeq)                    \* = NRep
 \* which representation can carry which lattice exactly (float32: 24 bits and its own rounding - small lattices only)
-RepOKData(r, l)  == /\ (r = "f4" => ~l.big) /\ (r \in IntReps => l.int) /\ (r = "i4be" => l.i4)
-                    /\ (r = "u2" => l.nn /\ ~l.big) /\ (r = "u8" => l.nn)
-RepOKWts(r, l)   == r \in IntReps => l.wint
-RepOKQuery(r, l) == /\ (r = "f4" => ~l.big) /\ (r \in IntReps => l.half) /\ (r = "i4be" => l.i4)
-                    /\ (r = "u2" => l.qnn /\ ~l.big) /\ (r = "u8" => l.qnn)
-RepFix(r, ok)    == IF ok THEN r ELSE "f8"
+RepOKData(r, l)  == (r = "f4" => ~l.big) /\ (r \in IntReps => r \in l.fit)
+RepOKNodes(r, l) == (r = "f4" => ~l.big) /\ (r \in IntReps => r \in l.xfit)
+RepOKQuery(r, l) == (r = "f4" => ~l.big) /\ (r \in IntReps => r \in l.qfit)
+RepOKWts(r, l)   == r \in IntReps => r \in l.wfit
+RepOKCov(r, l, nonneg) == r # "list" /\ (r \in IntReps => r \in l.cfit) /\ (r \in UnsReps => nonneg)
+\* an inadmissible representation is replaced by the widest of its family that is admissible, else by float64
+RepFix(r, ok, fits) == IF ok THEN r ELSE IF r \in IntReps /\ "i8" \in fits THEN "i8" ELSE "f8"
+\* a lattice that cannot hold the data of the case is replaced by the first one
+LatFor(i, mx)  == IF mx <= LatSeq[i].kmax THEN LatSeq[i] ELSE LatSeq[1]
+LatForC(i, mx) == IF mx <= LatSeq[i].ckmax THEN LatSeq[i] ELSE LatSeq[1]
+MaxOfCols(x)   == VSetMax(UNION {VRange(x[j]) : j \in DOMAIN x})
 \* tolerance (lattice units) to which a mean / deviation is determined: 16 ulp of the operand scale, offset included
 \* (2^-52 * 16 * 2^41 on the big lattices; 2^-23 * 16 * 2^8 for float32 data); 0 = exact judgement
 TolBig == <<1, 128>>
@@ -95,19 +198,21 @@ RowFacs(h) == LET g == h % (NRep * NRep)  a == g \div NRep  b == g % NRep
               IN <<b, a, (a + b) % NRep, (a + 2 * b) % NRep, (a + 3 * b) % NRep>>
 FullFacs   == {<<i, j, k, 0, 0>> : i, j, k \in 0..(NRep - 1)}
 \* factors -> the fields (1: first array, 2: second array, 3: lattice [ip: third array], 4, 5: ip lattices)
-RLData(f) == LET l == LatSeq[f[3] + 1]
-                 rx == RepFix(RepSeq[f[1] + 1], RepOKData(RepSeq[f[1] + 1], l))
-             IN [rep |-> [x |-> rx, w |-> RepFix(RepSeq[f[2] + 1], RepOKWts(RepSeq[f[2] + 1], l))],
+RLData(f, mx) == LET l == LatFor(f[3] + 1, mx)
+                     rx == RepFix(RepSeq[f[1] + 1], RepOKData(RepSeq[f[1] + 1], l), l.fit)
+             IN [rep |-> [x |-> rx, w |-> RepFix(RepSeq[f[2] + 1], RepOKWts(RepSeq[f[2] + 1], l), l.wfit)],
                  lat |-> l.name, tol |-> LatTol(l, rx)]
-RLTable(f) == LET l == LatSeq[f[4] + 1]  lv == LatSeq[f[5] + 1]
-              IN [rep |-> [v |-> RepFix(RepSeq[f[1] + 1], RepOKData(RepSeq[f[1] + 1], lv)),
-                           x |-> RepFix(RepSeq[f[2] + 1], RepOKData(RepSeq[f[2] + 1], l)),
-                           u |-> RepFix(RepSeq[f[3] + 1], RepOKQuery(RepSeq[f[3] + 1], l))],
+RLTable(f, mxx, mxv) ==
+              LET l == LatFor(f[4] + 1, mxx)  lv == LatFor(f[5] + 1, mxv)
+              IN [rep |-> [v |-> RepFix(RepSeq[f[1] + 1], RepOKData(RepSeq[f[1] + 1], lv), lv.fit),
+                           x |-> RepFix(RepSeq[f[2] + 1], RepOKNodes(RepSeq[f[2] + 1], l), l.xfit),
+                           u |-> RepFix(RepSeq[f[3] + 1], RepOKQuery(RepSeq[f[3] + 1], l), l.qfit)],
                   lat |-> l.name, vlat |-> lv.name]
-\* (covariance matrices have no offset: only the unit of the lattice is used; a python list has no .shape)
-RLCov(f, m) == LET l == LatSeq[f[2] + 1]  r == RepSeq[f[1] + 1]
+\* (covariance matrices have no offset: entry m * cunit; a python list has no .shape)
+RLCov(f, m) == LET mx == VSetMax({m[i][j] : i, j \in DOMAIN m})
+                   l == LatForC(f[2] + 1, mx)  r == RepSeq[f[1] + 1]
                    nonneg == \A i, j \in DOMAIN m : m[i][j] >= 0
-               IN [rep |-> [m |-> RepFix(r, r # "list" /\ (r \in IntReps => l.int) /\ (r \in UnsReps => nonneg))],
+               IN [rep |-> [m |-> RepFix(r, RepOKCov(r, l, nonneg), IF nonneg \/ r \notin UnsReps THEN l.cfit ELSE {})],
                    lat |-> l.name]
 IpQueries == LET lo == 2 * VSetMin(TabX) - 4
                  hi == 2 * VSetMax(TabX) + 4
@@ -115,14 +220,14 @@ IpQueries == LET lo == 2 * VSetMin(TabX) - 4
 \* hash of a case -> its design row
 HSeq(s)  == VSumF(LAMBDA i : (s[i] + 1) * (2 * i + 1), DOMAIN s)
 HCols(x) == VSumF(LAMBDA j : HSeq(x[j]) * (j + 2), DOMAIN x)
-WithWm(x, w) == LET rl == RLData(RowFacs(3 * HCols(x) + 7 * HCols(w) + 5 * Len(w)))
+WithWm(x, w) == LET rl == RLData(RowFacs(3 * HCols(x) + 7 * HCols(w) + 5 * Len(w)), MaxOfCols(x))
                 IN [op |-> "wm", x |-> x, w |-> w, rep |-> rl.rep, lat |-> rl.lat]
 MkCl(x, w, hasw, ns, nit, f) ==
-    LET rl == RLData(f)
+    LET rl == RLData(f, VSeqMax(x))
     IN [op |-> "cl", x |-> x, w |-> w, hasw |-> hasw, nsn |-> NSigTable[ns][1], nsd |-> NSigTable[ns][2], niter |-> nit,
         rep |-> rl.rep, lat |-> rl.lat, tol |-> rl.tol]
 WithCl(x, w, hasw, ns, nit) == MkCl(x, w, hasw, ns, nit, RowFacs(3 * HSeq(x) + 7 * HSeq(w) + 13 * ns + (IF hasw THEN 5 ELSE 0)))
-MkIp(xs, vs, f) == LET rl == RLTable(f)
+MkIp(xs, vs, f) == LET rl == RLTable(f, VSeqMax(xs), VSeqMax(vs))
                    IN [op |-> "ip", xs |-> xs, vs |-> vs, us |-> IpQueries, rep |-> rl.rep, lat |-> rl.lat, vlat |-> rl.vlat]
 MkCv(m, f)      == LET rl == RLCov(f, m) IN [op |-> "cv", m |-> m, rep |-> rl.rep, lat |-> rl.lat]
 
@@ -222,7 +327,7 @@ RpWmData == { << << <<0, 1, 3, 4>> >>, << <<1, 2, 8, 1>> >> >>,                 
               << << <<3>> >>, << <<2>> >> >>,
               << << <<0, 3, 1>>, <<4, 4, 0>> >>, << <<1, 0, 2>> >> >>,
               << << <<0, 3, 1>>, <<4, 0, 2>> >>, << <<1, 0, 2>>, <<2, 2, 1>> >> >> }
-RpClData == { << <<3, 3, 4, 3, 2, 3, 12, 0>>, <<1, 1, 1, 1, 1, 1, 1, 1>>, FALSE, 3, 4 >>,      \* <<x, w, hasw, nsig index, niter>>
+RpClData == { << <<3, 3, 4, 3, 2, 3, 6, 0>>, <<1, 1, 1, 1, 1, 1, 1, 1>>, FALSE, 3, 4 >>,      \* <<x, w, hasw, nsig index, niter>>
               << <<1, 2, 2, 1, 6>>, <<1, 2, 1, 8, 1>>, TRUE, 2, 4 >>,
               << <<0, 0, 1, 1, 2, 5, 11>>, <<1, 1, 1, 1, 1, 1, 1>>, FALSE, 2, 1 >> }
 RpIpData == { << <<0, 1, 3, 4>>, <<4, 0, 1, 1>> >>, << <<1, 2>>, <<0, 4>> >> }
@@ -230,7 +335,7 @@ RpCvData == { << <<4, -2>>, <<-2, 9>> >>, << <<1, 1, 0>>, <<1, 4, 2>>, <<0, 2, 9
 ChooseRpWm ==
     /\ phase = "start" /\ "rp" \in Kinds
     /\ \E d \in RpWmData : \E f \in RpRows3 :
-          LET rl == RLData(f) IN c' = [op |-> "wm", x |-> d[1], w |-> d[2], rep |-> rl.rep, lat |-> rl.lat]
+          LET rl == RLData(f, MaxOfCols(d[1])) IN c' = [op |-> "wm", x |-> d[1], w |-> d[2], rep |-> rl.rep, lat |-> rl.lat]
     /\ phase' = "wm2" /\ UNCHANGED st
 ChooseRpCl ==
     /\ phase = "start" /\ "rp" \in Kinds
@@ -318,14 +423,17 @@ ClipStatsDefined == phase = "cl_done" =>
 DesignCovers == phase = "start" =>
     /\ NLat = NRep /\ Cardinality(VRange(RepSeq)) = NRep /\ Cardinality({LatSeq[i].name : i \in 1..NLat}) = NLat
     /\ \A j, k \in 1..5 : j < k => \A p, q \in 0..(NRep - 1) : \E h \in DesignRows : RowFacs(h)[j] = p /\ RowFacs(h)[k] = q
-    /\ \A i \in 1..NLat : LET l == LatSeq[i] IN (l.half => l.int) /\ (l.qnn => l.nn) /\ (l.i4 => l.int)
+    /\ \A i \in 1..NLat : LET l == LatSeq[i] IN l.qfit \subseteq l.xfit /\ (l.fit \cup l.xfit \cup l.wfit \cup l.cfit) \subseteq IntReps
+    /\ LatSeq[1].kmax >= 60 /\ LatSeq[1].ckmax >= 25
 \* what a case carries is admissible: the representation can hold the lattice, the tolerance is the lattice's
 RepAdmissible == phase \in {"wm", "wm2", "cl", "ip", "cv"} =>
     LET l == CHOOSE ll \in VRange(LatSeq) : ll.name = c.lat
-    IN CASE c.op \in {"wm", "cl"} -> RepOKData(c.rep.x, l) /\ RepOKWts(c.rep.w, l) /\ (c.op = "cl" => c.tol = LatTol(l, c.rep.x))
+    IN CASE c.op \in {"wm", "cl"} -> /\ RepOKData(c.rep.x, l) /\ RepOKWts(c.rep.w, l) /\ (c.op = "cl" => c.tol = LatTol(l, c.rep.x))
+                                      /\ (IF c.op = "wm" THEN MaxOfCols(c.x) ELSE VSeqMax(c.x)) <= l.kmax
          [] c.op = "ip" -> LET lv == CHOOSE ll \in VRange(LatSeq) : ll.name = c.vlat
-                           IN RepOKData(c.rep.v, lv) /\ RepOKData(c.rep.x, l) /\ RepOKQuery(c.rep.u, l)
-         [] c.op = "cv" -> c.rep.m # "list" /\ (c.rep.m \in IntReps => l.int)
+                           IN /\ RepOKData(c.rep.v, lv) /\ RepOKNodes(c.rep.x, l) /\ RepOKQuery(c.rep.u, l)
+                              /\ VSeqMax(c.xs) <= l.kmax /\ VSeqMax(c.vs) <= lv.kmax
+         [] c.op = "cv" -> RepOKCov(c.rep.m, l, \A i, j \in DOMAIN c.m : c.m[i][j] >= 0) /\ \A i, j \in DOMAIN c.m : c.m[i][j] <= l.ckmax
 
 \* interplin: the searchsorted index selection yields an allowed segment at every query;
 \* the property-level definition is single-valued (segments agree at the nodes)
@@ -349,6 +457,7 @@ Export == /\ (DoExport /\ phase \in {"wm", "wm2", "cl", "ip", "cv"}) => PrintT(<
                                          \* (lattice, float32 data?) - used by the adapter for its seeded larger cases
                                          okdata  |-> UNION {{<<r, l.name>> : r \in {q \in VRange(RepSeq) : RepOKData(q, l)}} : l \in VRange(LatSeq)},
                                          okwts   |-> UNION {{<<r, l.name>> : r \in {q \in VRange(RepSeq) : RepOKWts(q, l)}} : l \in VRange(LatSeq)},
+                                         oknodes |-> UNION {{<<r, l.name>> : r \in {q \in VRange(RepSeq) : RepOKNodes(q, l)}} : l \in VRange(LatSeq)},
                                          okquery |-> UNION {{<<r, l.name>> : r \in {q \in VRange(RepSeq) : RepOKQuery(q, l)}} : l \in VRange(LatSeq)},
                                          tols    |-> {<<l.name, r, LatTol(l, r)>> : r \in {"f4", "f8"}, l \in VRange(LatSeq)}])>>)
 =============================================================================
